@@ -543,7 +543,11 @@ func C09() int {
 		if sym == "" {
 			return
 		}
-		sym2, _, _, got2 := judge()
+		sym2, _, tr2, got2 := judge()
+		if (sym2 != sym || got2.Stdout != got.Stdout) && tr2.Script != tr.Script {
+			atomic.AddInt64(&HistoryDependent, 1) // another script for the same files on the re-run: C14's subject
+			return
+		}
 		if sym2 != sym || got2.Stdout != got.Stdout {
 			if sym3, _, _, _ := judge(); sym == "runaway" && sym2 == "" && sym3 == "" {
 				atomic.AddInt64(&TransientKills, 1) // a sandbox kill on an overloaded machine that did not repeat
